@@ -262,6 +262,71 @@ func TestPropAndLaw(t *testing.T) {
 	})
 }
 
+// roomy gives every slice of the criteria spare capacity (as slices built by
+// append usually have): sharing a backing array between two criteria then shows.
+func roomy(c imap.SearchCriteria) imap.SearchCriteria {
+	c.SeqNum = append(make([]imap.SeqSet, 0, len(c.SeqNum)+4), c.SeqNum...)
+	c.UID = append(make([]imap.UIDSet, 0, len(c.UID)+4), c.UID...)
+	c.Header = append(make([]imap.SearchCriteriaHeaderField, 0, len(c.Header)+4), c.Header...)
+	c.Body = append(make([]string, 0, len(c.Body)+4), c.Body...)
+	c.Text = append(make([]string, 0, len(c.Text)+4), c.Text...)
+	c.Flag = append(make([]imap.Flag, 0, len(c.Flag)+4), c.Flag...)
+	c.NotFlag = append(make([]imap.Flag, 0, len(c.NotFlag)+4), c.NotFlag...)
+	c.Not = append(make([]imap.SearchCriteria, 0, len(c.Not)+4), c.Not...)
+	c.Or = append(make([][2]imap.SearchCriteria, 0, len(c.Or)+4), c.Or...)
+	return c
+}
+
+// TestPropAndChains: the way programs build criteria - a shared base
+// criteria And-ed into several fresh ones, each of which is narrowed further.
+// Every result must be the intersection of what went into it, and no operand
+// (and no earlier result) may change when a later And runs.
+func TestPropAndChains(t *testing.T) {
+	rapid.Check(t, func(t *rapid.T) {
+		loc := rapid.SampledFrom(locs).Draw(t, "loc")
+		base := roomy(genCriteria(t, 1, loc, fieldMask{}))
+		n := rapid.IntRange(2, 3).Draw(t, "branches")
+		extras := make([]imap.SearchCriteria, n)
+		results := make([]imap.SearchCriteria, n)
+		for i := range extras {
+			extras[i] = roomy(genCriteria(t, 1, loc, fieldMask{}))
+		}
+		baseText := render(&base)
+		// (every result starts as the zero criteria: copying a criteria *struct*
+		// and appending to both copies shares slice storage by the rules of the
+		// language, which is the caller's affair, not And's)
+		for i := range results {
+			results[i].And(&base)
+		}
+		for i := range results {
+			results[i].And(&extras[i])
+		}
+		selBase := map[int]bool{}
+		for _, i := range uni.Select(&base) {
+			selBase[i] = true
+		}
+		for i := range results {
+			selX := map[int]bool{}
+			for _, k := range uni.Select(&extras[i]) {
+				selX[k] = true
+			}
+			for k, m := range uni.Msgs {
+				want := selBase[k] && selX[k]
+				if got := uni.Match(&results[i], m); got != want {
+					t.Fatalf("criteria built as base.And(extra%d) beside %d sibling(s) sharing the base is not the intersection:\n base = %s\n extra%d = %s\n result = %s\n message %v: base matches=%v extra matches=%v, result matches=%v",
+						i, n-1, baseText, i, render(&extras[i]), render(&results[i]), m, selBase[k], selX[k], got)
+				}
+			}
+		}
+		if after := render(&base); after != baseText {
+			t.Fatalf("the shared base criteria changed: %s -> %s", baseText, after)
+		}
+		ev.Eval()
+		ev.NonTrivial("chain:" + baseText)
+		ev.Class("and-chain-with-shared-base")
+	})
+}
+
 func TestReplayRegressions(t *testing.T) {
 	d := func(day int) time.Time { return smodel.DayTime(day, 12, 0, time.UTC) }
 	pairs := [][2]imap.SearchCriteria{
